@@ -138,6 +138,7 @@ type FuncContract struct {
 	Params     []Binder // for extern/iface (declared signature)
 	Results    []Binder
 	Allocates  bool
+	AutoFrame  bool // loops carry the automatic invariant "cells that existed at entry are unchanged" for components outside modifies
 	Terminates bool
 	Uses       []string // lemmas to include
 	PanicsIf   []*Clause
@@ -828,7 +829,7 @@ func (p *parser) textOf(a, b int) string {
 
 var clauseKeywords = map[string]bool{"requires": true, "ensures": true, "modifies": true, "decreases": true, "pure": true,
 	"mode": true, "props": true, "loop": true, "call": true, "trusted": true, "noovf": true, "invariant": true,
-	"allocates": true, "uses": true, "panics_if": true, "terminates": true, "opaque": true, "let": true, "mathints": true, "funcparam": true}
+	"allocates": true, "autoframe": true, "uses": true, "panics_if": true, "terminates": true, "opaque": true, "let": true, "mathints": true, "funcparam": true}
 
 func (p *parser) atItemEnd() bool {
 	t := p.peek()
@@ -1033,6 +1034,8 @@ func (p *parser) parseFuncContract() (*FuncContract, error) {
 			fc.MathInts = p.adv().s
 		case "allocates":
 			fc.Allocates = true
+		case "autoframe":
+			fc.AutoFrame = true
 		case "terminates":
 			fc.Terminates = true
 		case "mode":
